@@ -19,7 +19,7 @@ CHECKS = {
              "(panics inside the render closure) excluded; x86_64 cfg only",
         ref="DESIGN.md section 3 C08"),
     "C01": dict(
-        technique="value-class taint of entropy-decoded integers to panicking arithmetic; validation-check reconstruction from MIR against a reviewed limit table; blocking-primitive census; lock re-acquisition dataflow",
+        technique="interval abstract interpretation of header fields and value-class taint of entropy-decoded integers to panicking operations on MIR; validation-check reconstruction against a reviewed limit table; call-graph cycle (recursion) census with bound checks; backward data-flow of unwrapped iterator searches; signed-index guard rule; blocking-primitive census; lock re-acquisition dataflow",
         text="Decides four mechanisms the property names, for every input: raw hybrid-uint values never reach checked 32-bit arithmetic, "
              "shift amounts, divisors, negation or abs() without a dominating ordering comparison (R-RAWINT: each report is a "
              "reachable panic); 55 named input limits exist as compare->error checks with the reviewed bound (R-LIMIT); running "
@@ -66,7 +66,7 @@ CHECKS = {
         note="reference decision tables transcribed from ISO/IEC 18181-1; abstraction: duration {0,1,1000}, save_as_reference 0..3",
         ref="DESIGN.md section 3 C05"),
     "C06": dict(
-        technique="must-pass-through and loop-iteration path rules on MIR (cache invalidation)",
+        technique="must-pass-through and loop-iteration path rules on MIR (cache invalidation); constant propagation over MIR (header field, enum discriminant and const-generic parameters fixed) comparing filter padding with the reach read from the kernel offset tables",
         text="Claimed narrowly: region changes always invalidate. Every store to the requested region reaches reset_cache; reset_cache "
              "clears the loading caches and replaces the handle of every non-ReferenceOnly frame by a fresh handle built for the new "
              "region. Necessary for history-independence of region requests; does not decide padding arithmetic.",
@@ -95,7 +95,7 @@ CHECKS = {
         note="19 of 30 tables were compared by hand with ISO/IEC 18181-1 (listed in tools/gen_bitspec.py), the others are snapshots marked reviewed=false",
         ref="DESIGN.md section 3 C14"),
     "C15": dict(
-        technique="symbolic affine evaluation of MIR (abstract interpretation over {x,y,w,h,1}) of the three orientation maps, coefficient comparison; control-dependence / must-pass-through for channel order",
+        technique="symbolic affine evaluation of MIR (abstract interpretation over {x,y,w,h,1}) of the three orientation maps, coefficient comparison; control-dependence / must-pass-through for channel order; interval analysis of the operands of narrowing casts in the integer output conversions",
         text="Decides the coordinate-map half for all sizes and coordinates: for each of the eight orientations the maps in "
              "FrameBuffer::from_grids, ImageStream::to_original_coord and ImageMetadata::apply_orientation (forward and inverse) equal the "
              "EXIF definition, are mutually inverse and agree on the dimension swap; stream channels are pushed colour, black (cmyk only), "
@@ -110,7 +110,7 @@ CHECKS = {
         note="kernel families are recognised by name after stripping the architecture suffix",
         ref="DESIGN.md section 3 C16"),
     "C03": dict(
-        technique="comparison of rustc-evaluated format tables and enum code maps with references transcribed from the standard; sibling cross-check of the two channel-partition predicates on MIR",
+        technique="comparison of rustc-evaluated format tables and enum code maps with references transcribed from the standard; sibling cross-check of the two channel-partition predicates on MIR; scope (construction-site / loop) rule for the RLE run state; who-may-reset-without-previous-channels rule tied to the table-refusal check",
         text="Claimed narrowly: three structural necessary conditions of exact lossless decoding. The weighted-predictor reciprocal table "
              "and the delta palette have the specified values; the 14 predictor codes denote the specified predictors (enum discriminants "
              "and the TryFrom<u32> switch); the predicate that keeps a channel in the global section and the one that skips it when "
@@ -119,7 +119,7 @@ CHECKS = {
         note="everything arithmetic about prediction, context trees, fast paths and inverse transforms is undecided",
         ref="DESIGN.md section 8.14"),
     "C04": dict(
-        technique="comparison of rustc-evaluated constant tables with references transcribed from the standards; validation-check reconstruction from MIR against a reviewed table; constant-agreement rule on the LZ77 window",
+        technique="comparison of rustc-evaluated constant tables with references transcribed from the standards; validation-check reconstruction from MIR against a reviewed table; constant-agreement rule on the LZ77 window; constant-propagating path rule (enum variant fixed) on the single-token shortcut",
         text="Claimed narrowly: three structural necessary conditions. The tables the entropy decoder takes from the format (LZ77 special "
              "distances, code-length order) have the specified values; the acceptance checks the property names (ANS final state 0x130000, "
              "complete prefix codes, distribution sums, cluster map holes, Lehmer digits) exist as compare->error; the LZ77 window "
@@ -128,7 +128,7 @@ CHECKS = {
         note="the ANS mask / table-size agreement is decided under C02 (R-UNSAFE-b); alias-table construction, prefix lookup tables and hybrid-integer expansion are not decided",
         ref="DESIGN.md section 8.9"),
     "C19": dict(
-        technique="comparison of rustc-evaluated colour constants and recognition tables with references transcribed from the cited standards or derived by formula",
+        technique="comparison of rustc-evaluated colour constants and recognition tables with references transcribed from the cited standards or derived by formula; writer/reader agreement of the cicp tag layout (offset, element index, codes) extracted from MIR; backward data-flow slice of the recovered chromaticities (no range-limiting operation)",
         text="Claimed narrowly: the named colour constants. Chromaticities of the enumerated white points and primaries, the Bradford "
              "matrix and its inverse, the HLG and PQ constants equal the values of the cited standards, and the ICC parser's recognition "
              "tables map the same chromaticities to the same enum values the synthesiser writes. Does not decide anything numerical about "
@@ -145,7 +145,7 @@ CHECKS = {
         note="sibling agreement is a cross-check, not a proof of equal results: arms that differ only in arithmetic constants of the same operators are not distinguished",
         ref="DESIGN.md section 8.13"),
     "C17": dict(
-        technique="interval abstract interpretation of reconstruction-header fields to panicking operations; validation-check reconstruction from MIR against a reviewed table; per-variant constant-propagating path rules for the status query",
+        technique="interval abstract interpretation of reconstruction-header fields to panicking operations; backward data-flow of unwrapped iterator searches; validation-check reconstruction from MIR against a reviewed table (through helper and predicate functions); symbolic carving of the data section; per-variant constant-propagating path rules for the status query",
         text="Claimed narrowly: the two clauses visible in the shape of the code. (1) jpeg_reconstruction_status reports Available only on the "
              "Data state of the jbrd box and after each piece of metadata the header expects (ICC, Exif, XMP) has been probed; "
              "reconstruct_jpeg refuses incomplete box states and a missing frame before unwrapping. (2) Hostile reconstruction data is an "
@@ -155,7 +155,7 @@ CHECKS = {
         note="interval domain only: panics depending on relations between header vectors (table index vs table count, is_last markers, Huffman code shapes) are not decided",
         ref="DESIGN.md section 8.8"),
     "C18": dict(
-        technique="validation-check reconstruction from MIR against a reviewed table of the ICC stream decoder's consistency conditions",
+        technique="validation-check reconstruction from MIR against a reviewed table of the ICC stream decoder's consistency conditions; exhaustive walk of the tag-name decision tree; symbolic normal form of the prediction shift amount",
         text="Claimed narrowly: the rejection clause (inconsistent encodings are rejected with an error). 24 consistency conditions of "
              "read_icc/decode_icc (sizes, offsets, command/tag codes, predictor parameters, available data, final length) exist as "
              "compare->error checks with the reviewed bound. Does not decide byte-exactness of accepted profiles.",
